@@ -58,11 +58,12 @@ fn p_values<F: Float, D: Data<Elem = F>>(
     ground: &Array1<F>,
     num_iter: usize,
 ) -> Array1<F> {
-    // transpose element matrix such that we can shuffle columns
+    // transpose element matrix such that we can shuffle columns: feature `j` occupies
+    // `flattened[j * m..(j + 1) * m]`
     let (n, m) = (data.ncols(), data.nrows());
     let mut flattened = Vec::with_capacity(n * m);
-    for i in 0..m {
-        for j in 0..n {
+    for j in 0..n {
+        for i in 0..m {
             flattened.push(data[(i, j)]);
         }
     }
@@ -78,7 +79,7 @@ fn p_values<F: Float, D: Data<Elem = F>>(
         }
 
         // create an ndarray and calculate the PCC for this distribution
-        let arr_view = ArrayView2::from_shape((m, n), &flattened).unwrap();
+        let arr_view = ArrayView2::from_shape((n, m), &flattened).unwrap();
         let correlation = pearson_correlation(&arr_view.t());
 
         // count the number of times that the re-shuffled distribution has a larger PCC than the
